@@ -1,11 +1,11 @@
 package props
 
 import (
-	"os"
-	"strings"
 	"fmt"
 	"go/constant"
 	"go/token"
+	"os"
+	"strings"
 
 	"golang.org/x/tools/go/ssa"
 
@@ -543,7 +543,9 @@ func (env *Env) c20Default() {
 	}
 	chk("Timeout", pat.Const("120000000000"), "2 minutes")
 	chk("MaxRetryDelay", pat.Const("30000000000"), "30 seconds")
-	chk("Getter", pat.Pred(func(t *flow.Term) bool { return t.Op == flow.OpNew && len(t.Name) > 0 && contains(t.Name, "SimpleHTTPSGetter") }), "&SimpleHTTPSGetter{}")
+	chk("Getter", pat.Pred(func(t *flow.Term) bool {
+		return t.Op == flow.OpNew && len(t.Name) > 0 && contains(t.Name, "SimpleHTTPSGetter")
+	}), "&SimpleHTTPSGetter{}")
 }
 
 func contains(s, sub string) bool {
